@@ -16,6 +16,7 @@ func split(ctx context.Context, r io.Reader) (<-chan string, <-chan error) {
 
 	go func() {
 		defer func() {
+			verifPoint("split.exit", 0, "")
 			close(blockc)
 			close(errc)
 		}()
@@ -24,15 +25,19 @@ func split(ctx context.Context, r io.Reader) (<-chan string, <-chan error) {
 		for sc.Scan() {
 			select {
 			case <-ctx.Done():
+				verifPoint("split.scan.ctx", 0, "")
 				return
 			default:
 				l := sc.Text()
 				if isRootBlockBeginning(l) {
 					if len(block) != 0 {
+						verifPoint("split.send.pre", 0, block)
 						select {
 						case <-ctx.Done():
+							verifPoint("split.send.ctx", 0, block)
 							return
 						case blockc <- block:
+							verifPoint("split.send.post", 0, block)
 						}
 					}
 					block = ""
@@ -41,13 +46,18 @@ func split(ctx context.Context, r io.Reader) (<-chan string, <-chan error) {
 			}
 		}
 		if err := sc.Err(); err != nil {
+			verifPoint("split.errsend.pre", 0, "")
 			errc <- err
+			verifPoint("split.errsend.post", 0, "")
 			return
 		}
+		verifPoint("split.send.pre", 0, block)
 		select {
 		case <-ctx.Done():
+			verifPoint("split.send.ctx", 0, block)
 			return
 		case blockc <- block: // 最後のRootブロック送出
+			verifPoint("split.send.post", 0, block)
 			return
 		}
 	}()
